@@ -604,6 +604,33 @@ EXTRA16 = {
 }
 
 
+# addenda of round 17 (technique, text)
+EXTRA17 = {
+    'C01': ('value identity of the output blob in the front ends',
+            'The blob that holds the records is written as computed, '
+            'never replaced by a transformed copy of itself.'),
+    'C04': ('isinstance edges and recursive calls in the taint engine',
+            'A value known to be a set on an isinstance edge is walked in '
+            'hash order; recursive cleaners hand their argument\'s order '
+            'back.'),
+    'C09': ('window rules over the copy helpers the merge reaches',
+            'The HDF5 copy helpers the statistics merge reaches cover '
+            'every row block (R-TILE/whole-axis over comprehensions).'),
+    'C13': ('constant-length windows at re-ordered rows',
+            'Row pointers of re-ordered rows are not copied from a source '
+            'window of variable length (R-PERM/permuted-row-window).'),
+    'C14': ('publish-after-drain judged inside writer-spawner callees',
+            'A callee that both moves the file into place and starts '
+            'workers is judged as a frame of its own.'),
+    'C15': ('key census of the deserialisers',
+            'from_str hands the constructor every table that was '
+            'serialised.'),
+    'C18': ('presence-only reconciliation of the marker cache',
+            'The pre-flight reconciliation decides by the presence of a '
+            'group, never by its content (R-AGREE/reconcile-by-presence).'),
+}
+
+
 def main():
     checks = []
     for pid in ALL:
@@ -614,6 +641,11 @@ def main():
             tech = tech + '; ' + EXTRA[pid][0]
             text = text + ' ' + EXTRA[pid][1]
             ref = ref + ' and section 15'
+        if pid in EXTRA17:
+            tech = tech + '; ' + EXTRA17[pid][0]
+            text = text + ' ' + EXTRA17[pid][1]
+            if 'section 15' not in ref:
+                ref = ref + ' and section 15'
         if pid in EXTRA16:
             tech = tech + '; ' + EXTRA16[pid][0]
             text = text + ' ' + EXTRA16[pid][1]
